@@ -314,6 +314,8 @@ pub struct Checker<'a>
     stale_take_seen: bool,
     /// a removal or despawn trigger was revoked at some point of this run
     revoked_polled: bool,
+    /// `StateCreated` events seen so far
+    created_seen: u64,
     gc_before: Vec<bool>,
     /// entities whose last signal clone went inside the current root tree: every runner exit collects, so they must be gone
     /// when the tree ends
@@ -342,7 +344,7 @@ macro_rules! fail {
     }};
 }
 
-fn is_floating(ev: &Ev) -> bool { matches!(ev, Ev::Drop(_) | Ev::Canary(_) | Ev::Bystander(_) | Ev::Gone(_) | Ev::GcTake(_)) }
+fn is_floating(ev: &Ev) -> bool { matches!(ev, Ev::Drop(_) | Ev::Canary(_) | Ev::Bystander(_) | Ev::Gone(_) | Ev::GcTake(_) | Ev::StateCreated) }
 
 impl<'a> Checker<'a>
 {
@@ -358,7 +360,7 @@ impl<'a> Checker<'a>
             tokens: vec![None; prog.insts.len()], res: [0, 0, 0], res_t_present: true, payloads: HashMap::new(), pending_immediate_drop: None,
             polled: Vec::new(), postponed: Vec::new(), stack: Vec::new(), tree_depth: 0, seq: 0, sender: (DRIVER, 0),
             wr_keys: [Vec::new(), Vec::new()], sigs: vec![(None, 0); 4], doomed_ents: Vec::new(), resolve_uncertain: Vec::new(), fifo: HashMap::new(),
-            gc_guaranteed_this_step: false, in_direct_step: false, in_gc: false, in_op_prologue: false, pre_targets: None, pre_ent: None, pre_t_present: None, poll_epoch: 0, sure_epoch: 0, gc_must: Vec::new(), gc_pending_deadline: false, gc_overdue: Vec::new(), gc_overdue_insts: Vec::new(), gc_taking: Vec::new(), gone_pos: HashMap::new(), stale_take_seen: false, revoked_polled: false, gc_before: Vec::new(), doomed_in_tree: Vec::new(), sig_harness: [0; 4], deferred_bail: None, bulk_released: 0, bulk_held: 0, bulk_alive: 0, wq: Default::default(), iss_counter: 0, cur_iss: 0, iss_of: HashMap::new(), sys: Default::default(),
+            gc_guaranteed_this_step: false, in_direct_step: false, in_gc: false, in_op_prologue: false, pre_targets: None, pre_ent: None, pre_t_present: None, poll_epoch: 0, sure_epoch: 0, gc_must: Vec::new(), gc_pending_deadline: false, gc_overdue: Vec::new(), gc_overdue_insts: Vec::new(), gc_taking: Vec::new(), gone_pos: HashMap::new(), stale_take_seen: false, revoked_polled: false, created_seen: 0, gc_before: Vec::new(), doomed_in_tree: Vec::new(), sig_harness: [0; 4], deferred_bail: None, bulk_released: 0, bulk_held: 0, bulk_alive: 0, wq: Default::default(), iss_counter: 0, cur_iss: 0, iss_of: HashMap::new(), sys: Default::default(),
         }
     }
 
@@ -462,6 +464,7 @@ impl<'a> Checker<'a>
                 }
                 fail!(self, "C18", "entity-liveness", &["C10", "C08"], "entity {bits:#x} was despawned although nothing in the program despawns it");
             }
+            Ev::StateCreated => { self.created_seen += 1; Ok(true) }
             Ev::GcTake(bits) =>
             {
                 // `despawn_recursive` first of all takes the entity out of its parent's child list -- before the flush with which
@@ -485,6 +488,8 @@ impl<'a> Checker<'a>
                     let persistent = !self.regs.iter().any(|r| r.inst == *i && r.refcounted);
                     if self.prog.insts[*i as usize].rc { fail!(self, "C10", "premature-autodespawn", &["C07"], "state of the ref-counted system command {i} dropped although the clone of its signal still exists"); }
                     if persistent { fail!(self, "C07", "persistent-despawned", &["C13", "C16"], "state of instance {i} dropped although nothing despawned it"); }
+                    // (with a delivery postponed for it: "postponed until that execution has completed, and then runs", C09 / C02)
+                    if self.postponed.iter().any(|p| p.target == *i) { fail!(self, "C07", "reactor-premature-despawn", &["C13", "C09", "C02"], "state of instance {i} dropped while a trigger is still registered and a delivery is postponed for it"); }
                     fail!(self, "C07", "reactor-premature-despawn", &["C13"], "state of instance {i} dropped while a trigger is still registered");
                 }
                 let t = &mut self.insts[*i as usize];
@@ -586,6 +591,7 @@ impl<'a> Checker<'a>
         }
         if s.rem.iter().flatten().next().is_some() || s.d.is_some()
         {
+            if matches!(self.prog.insts[inst as usize].origin, Origin::World(_) | Origin::EntityWorld(_)) { fail!(self, "C08", "polled-spurious", &["C01", "C16"], "world reactor {inst} ran a removal/despawn reaction nothing accounts for: {s:?} (expected {want})"); }
             fail!(self, "C08", "polled-spurious", &["C01"], "instance {inst} ran a removal/despawn reaction nothing accounts for: {s:?} (expected {want})");
         }
         if !t.revoked_keys.is_empty() { fail!(self, "C06", "reaction-after-revoke", &["C01"], "instance {inst} ran with {s:?}; it is not registered for that (expected {want})"); }
@@ -1508,6 +1514,12 @@ impl<'a> Checker<'a>
             fail!(self, "C13", "local-reset", &["C17"], "instance {inst}: run #{} sees Local={n} captured={cap}", self.insts[ti].runs);
         }
         let n = self.insts[ti].runs;
+        // a system's state is created once, when it first runs -- and never again (every actor announces the creation of its state)
+        let started = self.insts.iter().filter(|t| t.runs >= 1).count() as u64;
+        if self.created_seen != started
+        {
+            fail!(self, "C13", "state-created-again", &["C17"], "{} system states have been created by the time instance {inst} starts its run #{n}, but only {started} systems have ever run: some system's state was built more than once", self.created_seen);
+        }
         // the change-detection baseline ("last run" tick) is system state too: a resource never touched since setup is new
         // to a system exactly once
         if chg != (n == 1)
@@ -2782,6 +2794,8 @@ impl<'a> Checker<'a>
             let watch_hi: usize = watch_lo + self.polled.iter().filter(|p| matches!(p.kind, PKind::Despawn)).map(|p| p.must.len()).sum::<usize>();
             if s.despawn_entries < watch_lo || s.despawn_entries > watch_hi
             {
+                // (with world reactors around: "adding triggers to a world reactor makes its single system react to them", C16)
+                if self.prog.insts.iter().any(|d| matches!(d.origin, Origin::World(_) | Origin::EntityWorld(_))) { fail!(self, "C08", "despawn-table-mismatch", &["C06", "C07", "C16"], "despawn table holds {} entries, expected {watch_lo}..={watch_hi} (step {step})", s.despawn_entries); }
                 fail!(self, "C08", "despawn-table-mismatch", &["C06", "C07"], "despawn table holds {} entries, expected {watch_lo}..={watch_hi} (step {step})", s.despawn_entries);
             }
         }
